@@ -5,6 +5,24 @@ import json, os
 ROOT = os.path.dirname(os.path.abspath(__file__))
 
 CLAIMED = {
+    "C01": dict(
+        technique="Coq proof (frame theorem: a statement writes exactly its composed parts, once each, in slot order) + extracted clause-level statement reader run on the implementation's text against intent-level and record-level clause trees",
+        text="C01_frame: for every SELECT (CTEs, set-operation chain, all clauses), INSERT, UPDATE and DELETE value of any size and "
+             "nesting depth, the leaves the model writes are exactly the composed parts of the builder record (expressions, "
+             "sub-statements, names, aliases), each once, in the grammatical slot order stmt_parts, separated only by keywords, "
+             "punctuation and white space; C01_leaves: flattening preserves what is written under every option combination. "
+             "C01_findings: the recorded deviations (D4 one-element ROLLUP set, D5 ORDER BY/LIMIT of a set-operation branch dropped, "
+             "D6 CROSS JOIN with ON / LATERAL before a relation / ONLY before a sub-select / refined function aliases) are "
+             "demonstrated in the kernel. Harness: (A) abstract statements over all slots with repeated calls for conditions, "
+             "aliases and single-valued options, composed through the API, their text read by the extracted statement reader "
+             "(Pg/Stmt.v) and compared with the intended clause tree; (B) reflection-generated and grammar-shaped API programs, "
+             "clause tree from the builder records vs reading of the text, every nested statement included; byte-exact model "
+             "correspondence on all of them; all four option combinations.",
+        note="Partial: that the separators are the grammar's keywords for the slot and that part texts do not disturb the clause "
+             "structure is evaluated by the reader on every case, not proved; last-call-wins / alias attachment are API-level "
+             "and checked by (A) only; the reader is a hand-written formalisation of gram.y at clause level. D4/D5/D6 and the "
+             "D7 sites in condition lists are recorded findings, not repaired.",
+        ref="DESIGN.md §6 C01"),
     "C02": dict(
         technique="Coq proof (sound precedence checker against a strict derivation relation of PostgreSQL's operator table; rendering = token list) + extracted lexer/precedence reader run on the implementation's text",
         text="For the operator fragment (operators, predicates, casts, unary minus, NOT, AND/OR, LIKE family with ESCAPE, IN/NOT IN, "
